@@ -61,6 +61,17 @@ def tasks(tier):
                    loop=e.startswith("Async") or e == "adeco",
                    sleeper_async=e.startswith("Async") or e == "adeco")
         out.append({"family": "surface-attempt-timeout", "cfg": cfg, "entry": e, "bound": 1})
+    # async: the successful attempt's return value is itself an awaitable object (a handle the
+    # caller wants back, e.g. a Task or a lazy response): it is returned, not awaited
+    for M, rcf, e in itertools.product([1, 2, 3], [False, True],
+                                  ["AsyncRetry.call", "AsyncPolicy.call", "AsyncPolicy0.call",
+                                   "AsyncRetryPolicy.call", "adeco", "AsyncRetry.context"]):
+        if "0" in e and (rcf or M > 1):
+            continue
+        cfg = dict(M=M, alphabet=["ok", "x:T", "r:T"] if rcf else ["ok", "x:T"],
+                   ok_awaitable=True, max_unknown=None, force_rc=rcf,
+                   sleeper="call" if "deco" not in e else "policy")
+        out.append({"family": "surface-awaitable-value", "cfg": cfg, "entry": e, "bound": 1})
     # the operation returns None and the result classifier rejects None
     for M, e in itertools.product([2, 3], ["Retry.call", "Policy.call", "RetryPolicy.call"] + ["AsyncRetry.call", "AsyncPolicy.call",]):
         cfg = dict(M=M, alphabet=["ok", "rn:T", "x:T", "rn:P"], force_rc=True, max_unknown=None,
